@@ -280,10 +280,13 @@ impl FromStr for PartialDSym {
             Err("size must be at least 1".into())
         } else if spec.dim < 1 {
             Err("dimension must be at least 1".into())
-        } else if spec.op_spec.len() != spec.dim as usize + 1 {
+        } else if Some(spec.op_spec.len()) != spec.dim.checked_add(1) {
             Err("incorrect dimension for op specifications".into())
         } else if spec.m_spec.len() != spec.dim as usize {
             Err("incorrect dimension for degree specifications".into())
+        } else if spec.op_spec.iter().any(|l| l.len() < spec.size.div_ceil(2)) {
+            // each entry defines at most two images; checked before allocating
+            Err("incomplete op spec".into())
         } else {
             let mut dset = PartialDSet::new(spec.size, spec.dim);
 
